@@ -181,6 +181,79 @@ fn different_order<R: Rep, const N: usize, const M: usize>() {
     core::mem::forget(d2);
 }
 
+/// AdjacencyMap: equality is about the vertex SET (ids), not just the order
+/// and the arcs. Two maps with vertex sets within {0, 2, 3}, isolated
+/// vertices included.
+fn map_vertex_sets() {
+    use crate::oracle::GV;
+
+    const IDS: [usize; 3] = [0, 2, 3];
+
+    cx::set_vcap(5);
+
+    let g1 = GV::<3>::any();
+    let g2 = GV::<3>::any();
+
+    kani::assume(g1.v[0] && g2.v[0]);
+
+    let mk = |g: &GV<3>| {
+        let mut m = AdjacencyMap::empty(1);
+
+        for u in 1..3 {
+            if g.v[u] {
+                // admit the vertex, leaving it isolated
+                m.add_arc(0, IDS[u]);
+                let _ = m.remove_arc(0, IDS[u]);
+            }
+        }
+
+        for u in 0..3 {
+            for v in 0..3 {
+                if g.a[u][v] {
+                    m.add_arc(IDS[u], IDS[v]);
+                }
+            }
+        }
+
+        m
+    };
+    let d1 = mk(&g1);
+    let d2 = mk(&g2);
+    let mut same_arcs = true;
+    let mut same_verts = true;
+    let (mut n1, mut n2) = (0, 0);
+
+    for u in 0..3 {
+        n1 += usize::from(g1.v[u]);
+        n2 += usize::from(g2.v[u]);
+
+        if g1.v[u] != g2.v[u] {
+            same_verts = false;
+        }
+
+        for v in 0..3 {
+            if g1.a[u][v] != g2.a[u][v] {
+                same_arcs = false;
+            }
+        }
+    }
+
+    let same = same_arcs && same_verts;
+
+    assert!((d1 == d2) == same, "equal iff same vertex set and same arc set");
+
+    if same {
+        assert!(d1.cmp(&d2) == Ordering::Equal, "equal digraphs compare Ordering::Equal");
+        assert!(hash_of(&d1) == hash_of(&d2), "equal digraphs have equal hashes");
+    } else {
+        assert!(d1.cmp(&d2) != Ordering::Equal, "different digraphs do not compare Equal");
+    }
+
+    kani::cover!(!same && same_arcs && n1 == n2, "same order and arcs, different isolated vertex");
+    core::mem::forget(d1);
+    core::mem::forget(d2);
+}
+
 fn clone_independent<R: Rep, const N: usize>() {
     cx::set_vcap(N * N);
 
@@ -344,6 +417,14 @@ pub fn c20_different_order_adjacency_list_n2_n3() {
 #[cfg_attr(kani, kani::unwind(10))]
 pub fn c20_different_order_adjacency_map_n2_n3() {
     different_order::<AdjacencyMap, 2, 3>();
+}
+
+// AdjacencyMap pairs with vertex sets within {0, 2, 3}: equality distinguishes vertex sets of equal size.
+// @verif prop=C20 tier=quick fl=f1 feat=map4 role=vertex-sets/adjacency-map t=1500 mem=16
+#[cfg_attr(kani, kani::proof)]
+#[cfg_attr(kani, kani::unwind(8))]
+pub fn c20_map_vertex_sets() {
+    map_vertex_sets();
 }
 
 // @verif prop=C20 tier=quick fl=f0 role=clone/matrix t=1200 mem=12
